@@ -364,6 +364,20 @@ def submodule_through_dotted_import(run):
                 'inside-a-function': ('def f():\n    import pkgs.subm\n    return pkgs.subm.boo\n', (3, 19)),
                 'next-to-a-plain-import': ('import pkgs\nimport pkgs.subm\npkgs.subm.boo\n', (3, 8)),
             }
+            # a definition in ANOTHER file, on the line of the cursor and right of it: positions of other files are reported as they are (the
+            # cursor mark shifts columns of the edited text only)
+            with open(os.path.join(root, 'pkgs', 'shapes.py'), 'w') as f:
+                f.write('pad = 0\n\nclass Shape:\n    def area(self): pass\n    label = 1; other_label = 2\n')
+            for label, src, pos, want in (('method-right-of-the-cursor', 'from pkgs.shapes import Shape\n\n\nShape.area\n', (4, 8), ('shapes.py', (4, 8))),
+                                          ('class-attribute-right-of-the-cursor', 'from pkgs.shapes import Shape\n\n\n\nShape.other_label\n', (5, 9), ('shapes.py', (5, 15))),
+                                          ('class-left-of-the-cursor', 'import pkgs.shapes\n\npkgs.shapes.Shape\n', (3, 16), ('shapes.py', (3, 6)))):
+                try:
+                    locs = A.location(Pj.Project([root]), src, pos, os.path.join(root, 'pkgs', 'edited.py'))
+                    got = [(os.path.basename(l['file']), tuple(l['loc'])) for l in locs if isinstance(l, dict)]
+                except Exception as e:
+                    got = ['<raised %s>' % type(e).__name__]
+                prove('definition-in-another-file:%s' % label, want in got and all(g[1][1] >= 0 for g in got if isinstance(g, tuple)),
+                      clause='go-to-definition reports the position the other file has it at: %r [%r]' % (want, got), path=path)
             for label, (src, pos) in cases.items():
                 lines = src.split('\n')
                 try:
